@@ -155,7 +155,7 @@ theorem contains_foldl_insert (l s : List Nat) (p : Nat) :
 
 /-- a call list seen through membership: the last call about `p` decides, else the start set -/
 theorem contains_after_calls (sh : ConsensusShape) (hT : sh.trustOp = .insert) (hD : sh.distrustOp = .delete)
-    (ops : List TOp) (s : List Nat) (p : Nat) :
+    (hA : sh.addPeerOp = .noop) (ops : List TOp) (s : List Nat) (p : Nat) :
     (ops.foldl (applyOp sh) s).contains p = (lastCall ops p).getD (s.contains p) := by
   induction ops generalizing s with
   | nil => simp [lastCall]
@@ -179,6 +179,8 @@ theorem contains_after_calls (sh : ConsensusShape) (hT : sh.trustOp = .insert) (
         · have h1 : (q == p) = false := by simpa using hq
           have h2 : (p == q) = false := by simpa using (Ne.symm hq)
           simp [h1, h2]
+      | handshake q =>
+        simp only [applyOp, hA, applySetOp, Option.getD_none]
 
 theorem contains_filterMap_id (raw : List (Option Nat)) (p : Nat) :
     (raw.filterMap id).contains p = raw.contains (some p) := by
